@@ -517,6 +517,20 @@ fn emit_tag(
     Ok(())
 }
 
+/// Plain text of a choice line: glue written in it (`<>`) is a glue token, not text.
+fn push_choice_text(text: &str, out: &mut Vec<Value>) {
+    let mut first = true;
+    for part in text.split("<>") {
+        if !first {
+            out.push(json!("<>"));
+        }
+        first = false;
+        if !part.is_empty() {
+            out.push(json!(format!("^{part}")));
+        }
+    }
+}
+
 fn emit_choice_text_segment(
     text: &str,
     tags: &[DynamicString],
@@ -541,7 +555,7 @@ fn emit_choice_text_segment(
         if has_inline {
             emit_dynamic_string_parts(&dynamic.parts, out, scope, context)?;
         } else {
-            out.push(json!(format!("^{text}")));
+            push_choice_text(text, out);
         }
     }
     for tag in tags {
@@ -573,7 +587,7 @@ fn emit_choice_text_content(
         if has_inline {
             emit_dynamic_string_parts(&dynamic.parts, out, scope, context)?;
         } else {
-            out.push(json!(format!("^{text}")));
+            push_choice_text(text, out);
         }
     }
     for tag in tags {
